@@ -199,4 +199,130 @@ MUTANTS = [
 """, "new": """void> load()
     {
 """}]},
+
+    # ---------------------------------------------------------------- rcu family
+    {"name": "rcu-zombie-before-unlink", "props": ["C05"], "edits": [{"file": "gmlc/libguarded/rcu_list.hpp",
+        "old": """        node* oldPrev = iter.m_current->back.load();
+        node* oldNext = iter.m_current->next.load();
+
+        if (oldPrev) {""",
+        "new": """        node* oldPrev = iter.m_current->back.load();
+        node* oldNext = iter.m_current->next.load();
+        {
+            auto earlyZombie = zombie_alloc_trait::allocate(m_zombie_alloc, 1);
+            zombie_alloc_trait::construct(m_zombie_alloc, earlyZombie, iter.m_current);
+            zombie_list_node* oz = m_zombie_head.load();
+            do {
+                earlyZombie->next = oz;
+            } while (!m_zombie_head.compare_exchange_weak(oz, earlyZombie));
+        }
+
+        if (oldPrev) {"""},
+        {"file": "gmlc/libguarded/rcu_list.hpp",
+        "old": """        auto newZombie = zombie_alloc_trait::allocate(m_zombie_alloc, 1);
+        zombie_alloc_trait::construct(m_zombie_alloc,
+                                      newZombie,
+                                      iter.m_current);
+
+        zombie_list_node* oldZombie = m_zombie_head.load();
+
+        do {
+            newZombie->next = oldZombie;
+        } while (!m_zombie_head.compare_exchange_weak(oldZombie, newZombie));
+""", "new": ""}]},
+    {"name": "rcu-no-scan", "props": ["C05"], "edits": [{"file": "gmlc/libguarded/rcu_list.hpp",
+        "old": """        if (n->owner.load() != nullptr) {
+            last = false;
+            break;
+        }
+""", "new": ""}]},
+    {"name": "rcu-scan-first-only", "props": ["C05"], "edits": [{"file": "gmlc/libguarded/rcu_list.hpp",
+        "old": """        if (n->owner.load() != nullptr) {
+            last = false;
+            break;
+        }
+
+        n = n->next.load();""", "new": """        if (n->owner.load() != nullptr) {
+            last = false;
+        }
+        break;"""}]},
+    {"name": "rcu-owner-cleared-early", "props": ["C05"], "edits": [{"file": "gmlc/libguarded/rcu_list.hpp",
+        "old": """    zombie_list_node* cached_next = m_zombie->next.load();
+    zombie_list_node* n = cached_next;
+
+    bool last = true;""", "new": """    m_zombie->owner.store(nullptr);
+    zombie_list_node* cached_next = m_zombie->next.load();
+    zombie_list_node* n = cached_next;
+
+    bool last = true;"""}]},
+    {"name": "rcu-erase-clears-next", "props": ["C12"], "edits": [{"file": "gmlc/libguarded/rcu_list.hpp",
+        "old": """        auto newZombie = zombie_alloc_trait::allocate(m_zombie_alloc, 1);""",
+        "new": """        iter.m_current->next.store(nullptr);
+        auto newZombie = zombie_alloc_trait::allocate(m_zombie_alloc, 1);"""}]},
+    {"name": "rcu-head-before-link", "props": ["C12"], "edits": [{"file": "gmlc/libguarded/rcu_list.hpp",
+        "old": """    } else {
+        newNode->next.store(oldHead);
+        oldHead->back.store(newNode.get());
+        m_head.store(newNode.release());
+    }
+}
+
+template<typename T, typename M, typename Alloc>
+template<typename... Us>
+void rcu_list<T, M, Alloc>::emplace_front""",
+        "new": """    } else {
+        node* nn = newNode.release();
+        m_head.store(nn);
+        nn->next.store(oldHead);
+        oldHead->back.store(nn);
+    }
+}
+
+template<typename T, typename M, typename Alloc>
+template<typename... Us>
+void rcu_list<T, M, Alloc>::emplace_front"""}]},
+    {"name": "rcu-pushback-no-mutex", "props": ["C12"], "edits": [{"file": "gmlc/libguarded/rcu_list.hpp",
+        "old": """void rcu_list<T, M, Alloc>::push_back(T data)
+{
+    std::lock_guard<M> guard(m_write_mutex);""",
+        "new": """void rcu_list<T, M, Alloc>::push_back(T data)
+{"""}]},
+    {"name": "rcu-pushback-tail-stuck", "props": ["C12"], "edits": [{"file": "gmlc/libguarded/rcu_list.hpp",
+        "old": """        newNode->back.store(oldTail);
+        oldTail->next.store(newNode.get());
+        m_tail.store(newNode.release());
+    }
+}
+
+template<typename T, typename M, typename Alloc>
+template<typename... Us>
+void rcu_list<T, M, Alloc>::emplace_back""",
+        "new": """        newNode->back.store(oldTail);
+        oldTail->next.store(newNode.get());
+        (void)newNode.release();
+    }
+}
+
+template<typename T, typename M, typename Alloc>
+template<typename... Us>
+void rcu_list<T, M, Alloc>::emplace_back"""}]},
+    {"name": "rcu-dtor-keeps-log", "props": ["C13"], "edits": [{"file": "gmlc/libguarded/rcu_list.hpp",
+        "old": """    while (zn != nullptr && zn->owner.load() == nullptr) {""",
+        "new": """    while (false && zn != nullptr && zn->owner.load() == nullptr) {"""}]},
+    {"name": "rcu-release-leaks-nodes", "props": ["C13"], "edits": [{"file": "gmlc/libguarded/rcu_list.hpp",
+        "old": """            if (deadNode != nullptr) {
+                node_alloc_trait::destroy(m_list->m_node_alloc, deadNode);
+                node_alloc_trait::deallocate(m_list->m_node_alloc, deadNode, 1);
+            }""",
+        "new": """            (void)deadNode;"""}]},
+    {"name": "rcu-release-stale-next", "props": ["C13", "C05"], "edits": [{"file": "gmlc/libguarded/rcu_list.hpp",
+        "old": """        m_zombie->next.store(n);
+    }""", "new": """    }"""}]},
+    {"name": "rcu-c13-original-defect", "props": ["C13"], "edits": [{"file": "gmlc/libguarded/rcu_list.hpp",
+        "old": """            if (deadNode != nullptr) {
+                node_alloc_trait::destroy(m_list->m_node_alloc, deadNode);
+                node_alloc_trait::deallocate(m_list->m_node_alloc, deadNode, 1);
+            }""",
+        "new": """            node_alloc_trait::destroy(m_list->m_node_alloc, deadNode);
+            node_alloc_trait::deallocate(m_list->m_node_alloc, deadNode, 1);"""}]},
 ]
